@@ -232,7 +232,7 @@ class Interp(object):
                     c._parent = n
         return self.flow.sym(expr, node or self.cfg.entry)
 
-    def _elim(self, cons, atoms):
+    def _elim(self, cons, atoms, pool=()):
         """Project atoms out, after materialising the axioms of the composite
         ones (so that e.g. b = min(a, r) still leaves b <= r behind when
         min(a, r) itself is eliminated)."""
@@ -241,7 +241,7 @@ class Interp(object):
         if comp:
             ax, splits = self.flow.axioms([Poly.atom(a) for a in comp],
                                           self.nonneg)
-            cons = self._absorb(cons + ax, splits)
+            cons = self._absorb(cons + ax, splits, pool)
         return eliminate(cons, atoms)
 
     def _absorb(self, cons, splits, pool=()):
@@ -259,7 +259,7 @@ class Interp(object):
                 cons = cons + keep
         return cons
 
-    def _kill(self, cons, var):
+    def _kill(self, cons, var, pool=()):
         atoms = set()
         for c in cons:
             for a in c.p.atoms():
@@ -267,7 +267,7 @@ class Interp(object):
                     atoms.add(a)
         if not atoms:
             return cons
-        return self._elim(cons, atoms)
+        return self._elim(cons, atoms, pool)
 
     def _assign(self, cons, var, poly):
         """cons after  var := poly  (poly evaluated in the pre-state)."""
@@ -300,7 +300,10 @@ class Interp(object):
         T = Poly.atom(tmp)
         self.flow.atom_vars[tmp] = {tmp}
         cons = cons + [le(T, poly), le(poly, T)]
-        cons = self._kill(cons, var)
+        # candidate invariants about the new value, stated over the temporary
+        pool = [Con(c.p.subst({var: T}), c.strict, c.why)
+                for c in self.candidates if var in c.p.atoms()]
+        cons = self._kill(cons, var, pool)
         cons = [Con(c.p.subst({tmp: V}), c.strict, c.why) for c in cons]
         return cons
 
